@@ -7,6 +7,7 @@
 //	chunk =TEXT CUTS            whole-text parse and delivery in pieces (CUTS = c1,c2,.. rune offsets or -)
 //	hist  =TEXT N {=H CUTS A}   parse of TEXT after N earlier inputs on the same parser vs on a fresh parser
 //	queue =TEXT CUTS SCHED      like chunk, but ParseTokens is called only after the pieces marked 1 in SCHED (and the last)
+//	calls =TEXT V {OP ARG}*     the text after an arbitrary sequence of parser calls (see calls.go)
 //	repl  =ENTRY                the REPL's line reader (getExpressionWithLiner) given the entry line by line
 //
 // Every implementation-only comparison (pieces = whole, after history = fresh) is done here for
@@ -251,6 +252,7 @@ type harness struct {
 	nHist    int
 	nRepl    int
 	nQueue   int
+	nCalls   int
 	tmp      string
 	nfile    int
 	failR    int
@@ -847,6 +849,15 @@ func main() {
 
 	phase("6-history")
 
+	// 6b. arbitrary call sequences (Stop / Reset / ResetAddNewInput in every class of suspended state, queued streams)
+	ncalls := 1500
+	if thorough {
+		ncalls = 30000
+	}
+	h.callsPhase(targets, pool, ncalls)
+	out.Extra["impl_call_sequence_comparisons"] = h.nCalls
+	phase("6b-calls")
+
 	// 7. the REPL line reader: multi-line entries, with blank and whitespace-only lines inside strings,
 	// raw strings, block comments and between the elements of a form
 	for _, e := range replEntries {
@@ -948,6 +959,11 @@ func replay(h *harness, path string) {
 				}
 			}
 			impl, _, _ := h.chunkImpl(dec(f[1]), parseCuts(f[2]), sc)
+			h.out.Case(in, impl, true, "replay")
+			fmt.Printf("replay %s\n  %s\n", in, strings.ReplaceAll(impl, " ;; ", "\n  "))
+		case "calls":
+			t, via, cs := parseCalls(f)
+			impl, _ := h.callsImpl(t, via, cs)
 			h.out.Case(in, impl, true, "replay")
 			fmt.Printf("replay %s\n  %s\n", in, strings.ReplaceAll(impl, " ;; ", "\n  "))
 		case "repl":
